@@ -186,7 +186,7 @@ class Driver(SystemWideDevice):
         if not isinstance(pulse_ms, int):
             raise AssertionError("Wrong type {}".format(pulse_ms))
 
-        if 0 > pulse_ms > self.platform.features['max_pulse']:
+        if pulse_ms < 0:
             raise AssertionError("Pulse_ms {} is not valid.".format(pulse_ms))
 
         if self.config['max_pulse_ms'] and pulse_ms > self.config['max_pulse_ms']:
@@ -206,6 +206,9 @@ class Driver(SystemWideDevice):
 
         if not isinstance(timed_enable_ms, int):
             raise AssertionError("Wrong type {}".format(timed_enable_ms))
+
+        if timed_enable_ms < 0:
+            raise AssertionError("Timed_enable_ms {} is not valid.".format(timed_enable_ms))
 
         if self.config['max_hold_duration'] and timed_enable_ms > self.config['max_hold_duration']:
             raise DriverLimitsError("Driver {} may not be held with timed_enable_ms {} because max_hold_duration is {}".
